@@ -4,6 +4,7 @@ import (
 	"bytes"
 	"fmt"
 	"reflect"
+	"runtime"
 	"sync"
 
 	"verifharness/core"
@@ -88,9 +89,122 @@ func c06Deep(c *core.Ctx, idx int) {
 	}
 }
 
+type c06Long struct {
+	Big  []int64 `plenc:"1"`
+	Name string  `plenc:"2"`
+	N    int     `plenc:"3"`
+	P    *int    `plenc:"4"`
+	Tail string  `plenc:"5"`
+}
+
+var c06Sink [64]*c06Long
+
+// c06Collected: a value passed to Marshal by value (or through a pointer the caller drops) lives only
+// through the call; its first field takes long enough to encode for whole garbage collections to
+// run meanwhile, and other goroutines allocate values of the same shape all the time. The bytes are
+// those of the value all the same.
+func c06Collected(c *core.Ctx, idx int) {
+	rec := c.Rec
+	cfg := instCfgs()[idx%4]
+	name := cfgName(cfg)
+	p := instNew(cfg)
+	big := make([]int64, 1<<20)
+	for i := range big {
+		big[i] = int64(i) * 977
+	}
+	seven := 7
+	kept := c06Long{Big: big, Name: "the name of the value", N: 424242, P: &seven, Tail: "the tail of the value"}
+	want, err, pn := marshal(p, nil, &kept)
+	if err != nil || pn != "" {
+		rec.Violation("marshal-error", fmt.Sprintf("[%s] %v %s", name, err, pn), nil)
+		return
+	}
+	stop := make(chan struct{})
+	var wg sync.WaitGroup
+	wg.Add(1)
+	go func() {
+		defer wg.Done()
+		for {
+			select {
+			case <-stop:
+				return
+			default:
+				runtime.GC()
+			}
+		}
+	}()
+	for w := 0; w < 4; w++ {
+		wg.Add(1)
+		go func(w int) {
+			defer wg.Done()
+			other := -w
+			for k := 0; ; k++ {
+				select {
+				case <-stop:
+					return
+				default:
+				}
+				c06Sink[(w*16+k)%64] = &c06Long{Big: []int64{int64(k)}, Name: "somebody else's name", N: -k, P: &other, Tail: "somebody else's tail"}
+				if k%64 == 0 {
+					runtime.Gosched()
+				}
+			}
+		}(w)
+	}
+	rounds := 10
+	if c.Lane == "race" {
+		rounds = 2
+	}
+	prefix := []byte("prefix:")
+	buf := make([]byte, 0, len(want)+len(prefix))
+	fail := ""
+	for k := 0; k < rounds && fail == ""; k++ {
+		var out []byte
+		var err error
+		how := "by value"
+		var pn string
+		if k%2 == 0 {
+			pn = core.Guard(func() { out, err = p.Marshal(append(buf[:0], prefix...), kept) })
+		} else {
+			how = "through a pointer the caller drops"
+			pn = core.Guard(func() {
+				cp := new(c06Long)
+				*cp = kept
+				out, err = p.Marshal(append(buf[:0], prefix...), cp)
+			})
+		}
+		rec.Eval(1)
+		if err != nil || pn != "" || !bytes.HasPrefix(out, prefix) || !bytes.Equal(out[len(prefix):], want) {
+			fail = fmt.Sprintf("[%s] call %d, value passed %s while the collector runs and others allocate values of the same shape: Marshal gives %d bytes, the value encodes to %d bytes; the last 60 bytes are %x, should be %x (%v %s)", name, k, how, len(out)-len(prefix), len(want), head(tailOf(out, 60), 60), head(tailOf(want, 60), 60), err, trunc1(pn))
+		}
+	}
+	close(stop)
+	wg.Wait()
+	for i := range c06Sink {
+		c06Sink[i] = nil
+	}
+	if fail != "" {
+		rec.Violation("repetition", fail, nil)
+		return
+	}
+	rec.Count("marshals_under_collection", rounds)
+	rec.NonTrivial(core.Hash64("collected", name, fmt.Sprint(idx)))
+}
+
+func tailOf(b []byte, n int) []byte {
+	if len(b) > n {
+		return b[len(b)-n:]
+	}
+	return b
+}
+
 func c06Case(c *core.Ctx, idx int) {
 	if idx%101 == 5 {
 		c06Deep(c, idx)
+		return
+	}
+	if idx%257 == 11 {
+		c06Collected(c, idx)
 		return
 	}
 	rec := c.Rec
